@@ -96,46 +96,43 @@ def worlds(tier):
         tag = "multi" if kind == "multi" else f"flex-n{n}-q{q1}{q2}"
         base = dict(kind=kind, n=n, q1=q1, q2=q2)
         # liveness: one leader, fault-free, bounded delays; commands queued before / submitted after leadership
-        W.append((f"{tag}-live-presubmit", "log",
-                  dict(base, presubmit=((0, "c1"),), starters=(0,), max_hb=3, bounded=True, live=True), 100_000))
-        W.append((f"{tag}-live-submit-to-leader", "log",
-                  dict(base, presubmit=(), starters=(0,), late_cmds=("c1",), max_hb=3, bounded=True, live=True),
-                  100_000))
+        # (4 nodes with a phase-1 quorum of 1-2: every further promise re-runs _become_leader and the space
+        #  explodes; those pairs are exercised on the real engine by the sim-binding driver instead)
+        if not (n == 4 and q1 is not None and q1 <= 2):
+            W.append((f"{tag}-live-presubmit", "log",
+                      dict(base, presubmit=((0, "c1"),), starters=(0,), max_hb=3, bounded=True, live=True), 150_000))
+            W.append((f"{tag}-live-submit-to-leader", "log",
+                      dict(base, presubmit=(), starters=(0,), late_cmds=("c1",), max_hb=3, bounded=True, live=True),
+                      150_000))
         # safety: one leader, two commands, any delivery order (reordering only, nothing lost or cut)
         W.append((f"{tag}-1leader-2cmds", "log",
                   dict(base, presubmit=((0, "c1"),), starters=(0,), late_cmds=("c2",), max_hb=0,
-                       max_moves=(10 if q else 13) if n == 3 else 10), 400_000))
+                       max_moves=(10 if q else (12 if q1 == 1 else 13)) if n == 3 else 10), 400_000))
         # safety: competing leaders (take-over), one command each
         W.append((f"{tag}-takeover", "log",
                   dict(base, presubmit=((0, "c1"), (n - 1, "c2")), starters=(0, n - 1), max_starts=2, max_hb=0,
                        max_moves=10 if q else (11 if (kind == "multi" or (n, q1, q2) == (3, 2, 2)) else
-                                               (10 if n == 3 else 9))), 600_000))
+                                               ((9 if q1 == 1 else 10) if n == 3 else 9))), 600_000))
     if not q:
         # liveness for every other intersecting (phase-1, phase-2) quorum pair of 3 and 4 nodes, and 5-node clusters
         done = {(n, q1, q2) for n, q1, q2 in flexq}
         for n in (3, 4):
             for q1 in range(1, n + 1):
                 for q2 in range(1, n + 1):
-                    if q1 + q2 > n and (n, q1, q2) not in done:
+                    if q1 + q2 > n and (n, q1, q2) not in done and not (n == 4 and q1 <= 2):
                         base = dict(kind="flex", n=n, q1=q1, q2=q2)
                         W.append((f"flex-n{n}-q{q1}{q2}-live-presubmit", "log",
                                   dict(base, presubmit=((0, "c1"),), starters=(0,), max_hb=3, bounded=True, live=True),
-                                  100_000))
+                                  150_000))
                         W.append((f"flex-n{n}-q{q1}{q2}-live-submit-to-leader", "log",
                                   dict(base, presubmit=(), starters=(0,), late_cmds=("c1",), max_hb=3, bounded=True,
-                                       live=True), 100_000))
-        W.append(("multi-n5-live-presubmit", "log",
-                  dict(kind="multi", n=5, presubmit=((1, "c1"),), starters=(1,), max_hb=3, bounded=True, live=True),
-                  200_000))
-        W.append(("flex-n5-q24-live-presubmit", "log",
-                  dict(kind="flex", n=5, q1=2, q2=4, presubmit=((1, "c1"),), starters=(1,), max_hb=3, bounded=True,
-                       live=True), 200_000))
+                                       live=True), 150_000))
         W.append(("multi-forward-event", "log",
                   dict(kind="multi", presubmit=(), starters=(0,), late_cmds=("c1",), forward=True, max_hb=3,
                        bounded=True, live=True), 100_000))
         W.append(("multi-takeover-heartbeats", "log",
                   dict(kind="multi", presubmit=((0, "c1"), (2, "c2")), starters=(0, 2), max_starts=2, max_hb=1,
-                       cut=AB, max_moves=14), 400_000))
+                       cut=AB, max_moves=13), 600_000))
     # ---- leader election ---------------------------------------------------------------------------
     for strat in ("bully", "ring", "randomized"):
         W.append((f"le-{strat}-full-views", "le",
@@ -215,25 +212,39 @@ def _sim_binding(job):
     from happysimulator.distributions.constant import ConstantLatency
     from props.c12_logpaxos import RecSM
 
-    name, menu_ms = job
+    name, menu_ms, thorough = job
     t0 = time.time()
-    res = {"name": name, "cls": "sim", "kw": {"latency_menu_ms": list(menu_ms), "nodes": 3, "duration_s": 6},
+    res = {"name": name, "cls": "sim", "kw": {"latency_menu_ms": list(menu_ms), "duration_s": 6,
+                                              "clusters": "3 (every latency assignment); 4, 5 (rotating assignments)"},
            "states": 0, "transitions": 0, "depth": 0, "exhaustive": True, "caps": [], "terminal": 0, "leaves": 0,
            "nontrivial": 0, "outcomes": 0, "levels": [], "samples": [], "viol": [], "wall": 0.0}
     outcomes = set()
-    pairs = [(0, 1), (0, 2), (1, 2)]
-    for kind in ("paxos", "multi", "flex"):
-        for lat in itertools.product(menu_ms, repeat=3):
-            for proposer in (0, 2):
+    # (kind, n, q1, q2)
+    configs = [("paxos", 3, None, None), ("multi", 3, None, None)]
+    for n in (3, 4):
+        configs += [("flex", n, q1, q2) for q1 in range(1, n + 1) for q2 in range(1, n + 1) if q1 + q2 > n]
+    if thorough:
+        configs += [("paxos", 4, None, None), ("paxos", 5, None, None), ("multi", 4, None, None),
+                    ("multi", 5, None, None), ("flex", 5, 2, 4), ("flex", 5, 3, 3), ("flex", 5, 4, 2)]
+    for kind, n, q1, q2 in configs:
+        pairs = [(i, j) for i in range(n) for j in range(i + 1, n)]
+        if n == 3:
+            assignments = list(itertools.product(menu_ms, repeat=3))
+        else:
+            assignments = [tuple(menu_ms[(2 * i + j + sh) % len(menu_ms)] for i, j in pairs)
+                           for sh in range(len(menu_ms))] + [tuple(m for _ in pairs) for m in menu_ms]
+        for lat in assignments:
+            for proposer in (0, n - 1):
                 net = Network(name="net")
                 if kind == "paxos":
-                    nodes = [PaxosNode(f"n{i}", net) for i in range(3)]
+                    nodes = [PaxosNode(f"n{i}", net) for i in range(n)]
                 elif kind == "multi":
                     nodes = [MultiPaxosNode(f"n{i}", net, state_machine=RecSM(), heartbeat_interval=1.0)
-                             for i in range(3)]
+                             for i in range(n)]
                 else:
-                    nodes = [FlexiblePaxosNode(f"n{i}", net, peers=[None, None], state_machine=RecSM(),
-                                               heartbeat_interval=1.0) for i in range(3)]
+                    nodes = [FlexiblePaxosNode(f"n{i}", net, peers=[None] * (n - 1), state_machine=RecSM(),
+                                               phase1_quorum=q1, phase2_quorum=q2, heartbeat_interval=1.0)
+                             for i in range(n)]
                 for nd in nodes:
                     nd.set_peers(nodes)
                 for (i, j), ms in zip(pairs, lat):
@@ -248,7 +259,7 @@ def _sim_binding(job):
                     start = p.start
                 sim = Simulation(start_time=Instant.Epoch, duration=6.0, entities=[net, *nodes])
                 sim.schedule(Event.once(time=Instant.from_seconds(0.01), event_type="Go", fn=lambda e, f=start: f()))
-                out = run_guarded(sim, max_events=5000, storm=500)
+                out = run_guarded(sim, max_events=20000, storm=2000)
                 res["transitions"] += out["events"]
                 res["terminal"] += 1
                 if kind == "paxos":
@@ -262,17 +273,19 @@ def _sim_binding(job):
                     proto = "MultiPaxos" if kind == "multi" else "FlexiblePaxos"
                     fp = f"{proto}/liveness/" + ("no-heartbeat-timer" if not any(nd.is_leader for nd in nodes)
                                                  else "after-two-heartbeats")
-                outcomes.add(digest((kind, obs)))
+                outcomes.add(digest((kind, n, obs)))
                 if out["outcome"] != "done":
                     ok, fp = False, f"{kind}/engine-horizon/{out['outcome']}"
                 if len(set(lat)) > 1:
                     res["nontrivial"] += 1
-                case = {"driver": name, "world": "sim", "kind": kind, "latency_ms": list(lat), "proposer": proposer}
+                case = {"driver": name, "world": "sim", "kind": kind, "n": n, "q1": q1, "q2": q2,
+                        "latency_ms": list(lat), "proposer": proposer}
                 if len(res["samples"]) < 2:
                     res["samples"].append({**case, "observed": obs})
                 if not ok and fp not in {v[0] for v in res["viol"]}:
-                    res["viol"].append((fp, f"real Simulation, fault-free network, link latencies {lat} ms, node n{proposer} "
-                                            f"proposes/leads: after 6 s nodes report {obs}", case))
+                    res["viol"].append((fp, f"real Simulation, fault-free network, {kind} n={n} q=({q1},{q2}), link "
+                                            f"latencies {lat} ms, node n{proposer} proposes/leads: after 6 s nodes "
+                                            f"report {obs}", case))
     res["states"] = res["outcomes"] = len(outcomes)
     res["wall"] = time.time() - t0
     return res
@@ -319,7 +332,7 @@ def main(tier, seed, only=None):
     jobs = rotate(jobs, seed)
     jobs.sort(key=lambda j: -j[3])
     if not only or "sim-binding" in only or "sim" in only:
-        jobs.append(("sim", "sim-binding", (1, 5, 20) if tier == "quick" else (1, 5, 20, 100)))
+        jobs.append(("sim", "sim-binding", (1, 5, 20) if tier == "quick" else (1, 5, 20, 100), tier != "quick"))
     results = []
     if len(jobs) > 1 and os.environ.get("VERIF_WORKERS") != "1":
         it = pool().imap_unordered(_dispatch, jobs)
@@ -352,7 +365,7 @@ def replay(data):
     rep = data["replay"]
     if rep.get("world") == "sim":
         print("sim-binding case", rep, "- re-running the driver's case list")
-        res = _sim_binding((rep["driver"], (1, 5, 20)))
+        res = _sim_binding((rep["driver"], (1, 5, 20, 100), True))
         hit = [v for v in res["viol"] if v[0] == data.get("fingerprint")]
         for v in hit:
             print("  !!", v[0], v[1])
